@@ -95,7 +95,7 @@ type sysProc struct {
 }
 
 func newSysFixture(r *Run, rng *Rng) *sysFixture {
-	f := &sysFixture{R: r, seenCps: map[string]*RefSTH{}, info: map[string]any{}, PeriodMs: 40}
+	f := &sysFixture{R: r, seenCps: map[string]*RefSTH{}, info: map[string]any{}, PeriodMs: 100}
 	f.Base, _ = os.MkdirTemp(scratchRoot(), "sys-")
 	f.LogDir = filepath.Join(f.Base, "log")
 	os.MkdirAll(f.LogDir, 0o755)
@@ -302,6 +302,82 @@ func (p *sysProc) interrupt(d time.Duration) bool {
 		p.kill()
 		return false
 	}
+}
+
+// exitKind classifies why a server process ended by itself. An orderly fatal
+// exit (the sequencer refuses to go on: clock did not progress between two
+// rounds, a storage deadline passed, the compare-and-swap was lost) is the
+// designed fail-stop behaviour and is tolerated; a Go runtime crash is not.
+func (p *sysProc) exitKind() string {
+	b, _ := os.ReadFile(p.logp)
+	t := string(b)
+	switch {
+	case strings.Contains(t, "\npanic: ") || strings.Contains(t, "\nfatal error: ") || strings.Contains(t, "SIGSEGV"):
+		return "runtime-crash"
+	case strings.Contains(t, "time did not progress"):
+		return "clock-did-not-progress"
+	case strings.Contains(t, "deadline exceeded"):
+		return "deadline"
+	case strings.Contains(t, "sequencer error"):
+		return "sequencer-error"
+	}
+	return "other"
+}
+
+// noteExit records a spontaneous end of a server process; only a runtime crash
+// is a violation.
+func (f *sysFixture) noteExit(p *sysProc, when string) {
+	k := p.exitKind()
+	f.R.Count("sys_server_exited_by_itself:"+k, 1)
+	if k == "runtime-crash" {
+		f.violate("server-crashed", "the server process crashed (%s): %s", when, p.logTail())
+	}
+}
+
+// startServing starts the server until it serves (a process may end by itself
+// at any time, see exitKind): up to four attempts.
+func (f *sysFixture) startServing(name, cache string, periodMs int) *sysProc {
+	for i := 0; i < 4; i++ {
+		p := f.start(name, cache, periodMs, "")
+		if p.waitReady(90 * time.Second) {
+			return p
+		}
+		if p.alive() {
+			p.kill()
+			return nil
+		}
+		f.noteExit(p, "while starting")
+		if k := p.exitKind(); k == "other" || k == "runtime-crash" {
+			return p // dead: the caller reports the failed start
+		}
+	}
+	return nil
+}
+
+// acceptOne: the log "keeps sequencing" if some server life accepts a
+// submission; a life that ends by itself in an orderly way (see exitKind) is
+// followed by another start, up to four. Returns the last process (maybe
+// dead), whether a submission was accepted, and whether a start failed.
+func (f *sysFixture) acceptOne(name, cache string, rng *Rng, mk func() *sysChain) (p *sysProc, accepted, startFailed bool) {
+	for life := 0; life < 4; life++ {
+		p = f.startServing(name, cache, f.PeriodMs)
+		if p == nil {
+			return nil, false, false // watchdog: inconclusive
+		}
+		if !p.alive() {
+			return p, false, true
+		}
+		for i := 0; i < 3; i++ {
+			if st, a := f.submit(p, mk()); st == 200 && a != nil {
+				return p, true, false
+			}
+		}
+		if p.alive() {
+			return p, false, false // alive and refusing: judged by the caller
+		}
+		f.noteExit(p, "while judged for liveness")
+	}
+	return p, false, false
 }
 
 func (p *sysProc) logTail() string {
@@ -748,24 +824,18 @@ func runSysCrashCase(r *Run, rng *Rng, cycles int) {
 	}
 	p.interrupt(5 * time.Second)
 	// ---- the log keeps sequencing -------------------------------------------
-	p = f.start("P", "main", f.PeriodMs, "")
-	if !p.waitReady(90 * time.Second) {
-		if p.alive() {
-			p.kill()
-			r.Inconcl("final restart did not become ready within the watchdog")
-			return
-		}
+	p, accepted, startFailed := f.acceptOne("P", "main", rng, func() *sysChain { return f.newChain(rng) })
+	switch {
+	case p == nil:
+		r.Inconcl("final restart did not become ready within the watchdog")
+		return
+	case startFailed:
 		f.violate("restart-after-crash-failed", "the server did not start again after the idle restart: %s", p.logTail())
 		return
-	}
-	ok := 0
-	for i := 0; i < 3; i++ {
-		if st, a := f.submit(p, f.newChain(rng)); st == 200 && a != nil {
-			ok++
-		}
-	}
-	if ok == 0 {
+	case !accepted && p.alive():
 		f.violate("log-does-not-sequence-after-recovery", "no submission was accepted after recovery: %s", p.logTail())
+	case !accepted:
+		r.Inconcl("four server lives in a row ended by themselves before accepting a submission (%s)", p.exitKind())
 	}
 	p.interrupt(5 * time.Second)
 	// ---- final state at rest --------------------------------------------------
@@ -925,18 +995,18 @@ func runSysTwoCase(r *Run, rng *Rng) {
 		}
 	}
 	// a fresh start must load and sequence; then the final state is judged
-	p := f.start("C", "c", f.PeriodMs, "")
-	if !p.waitReady(90 * time.Second) {
-		if p.alive() {
-			p.kill()
-			r.Inconcl("restart did not become ready within the watchdog")
-			return
-		}
+	p, accepted, startFailed := f.acceptOne("C", "c", rng, func() *sysChain { return f.newChain(rng) })
+	switch {
+	case p == nil:
+		r.Inconcl("restart did not become ready within the watchdog")
+		return
+	case startFailed:
 		f.violate("restart-after-two-instances-failed", "a fresh start after the two-instance episode failed: %s", p.logTail())
 		return
-	}
-	if st, _ := f.submit(p, f.newChain(rng)); st != 200 {
-		f.violate("log-does-not-sequence-after-recovery", "submission after the two-instance episode answered %d: %s", st, p.logTail())
+	case !accepted && p.alive():
+		f.violate("log-does-not-sequence-after-recovery", "no submission was accepted after the two-instance episode: %s", p.logTail())
+	case !accepted:
+		r.Inconcl("four server lives in a row ended by themselves before accepting a submission (%s)", p.exitKind())
 	}
 	p.interrupt(5 * time.Second)
 	close(f.stopPoll)
@@ -1014,7 +1084,7 @@ func TestSysAcks(t *testing.T) {
 	}
 	wg.Wait()
 	if !p.alive() {
-		f.violate("server-stopped-under-load", "the server exited under plain load: %s", p.logTail())
+		f.noteExit(p, "under plain load")
 	}
 	p.interrupt(5 * time.Second)
 	close(f.stopPoll)
@@ -1069,6 +1139,13 @@ func TestSysSunset(t *testing.T) {
 	}
 	var acked []*sysChain
 	for i := 0; i < 12; i++ {
+		if !p.alive() {
+			f.noteExit(p, "while the log was active")
+			if p = f.startServing("P", "main", f.PeriodMs); p == nil || !p.alive() {
+				r.Inconcl("the server could not be brought up again in the active phase")
+				return
+			}
+		}
 		ch := mk()
 		st, a := f.submit(p, ch)
 		r.Eval(1)
@@ -1207,8 +1284,15 @@ func TestSysStartupRefusals(t *testing.T) {
 					f.violate("inception-day-start-refused", "with Inception = today the server did not create and serve the log: %s", p.logTail())
 					return
 				}
+				if statErr != nil || row == nil {
+					f.violate("inception-day-start-refused", "the server came up on its Inception day but did not create the log (checkpoint file present=%v, lock row present=%v)", statErr == nil, row != nil)
+				}
 				if st, _ := f.submit(p, f.newChain(rng)); st != 200 {
-					f.violate("inception-day-start-refused", "the log created on its Inception day does not accept a submission (HTTP %d)", st)
+					if p.alive() {
+						f.violate("inception-day-start-refused", "the log created on its Inception day does not accept a submission (HTTP %d)", st)
+					} else {
+						f.noteExit(p, "right after creating the log")
+					}
 				}
 				r.Count("sys_created_on_inception_day", 1)
 				p.interrupt(5 * time.Second)
